@@ -163,7 +163,8 @@ class Check:
             lines.append(f"  {o.detail}")
         for e in errors:
             lines.append(f"ANALYSIS-ERROR property={self.pid} {e}")
-        code = 2 if errors else (1 if new_keys else 0)
+        # a witness-backed violation stands even when another part of the analysis could not be completed
+        code = 1 if new_keys else (2 if errors else 0)
         self._write_evidence(counts, fails, undec, known_hit, new_keys, errors)
         n_ok = sum(1 for o in self.obls if o.status == "ok")
         lines.append(
